@@ -245,8 +245,13 @@ fn run_try(w: &mut World, scn: &Value, labels: &Labels, default_secret: &[u8]) -
             let progs = race["programs"].as_object().cloned().unwrap_or_default();
             let mut clients: Vec<usize> = progs.keys().map(|k| k.parse::<usize>().unwrap()).collect();
             clients.sort();
+            // "open_in_race": the clients open the (salt-less) store as the first step of their programs, inside the schedule
+            let open_in_race = race.get("open_in_race").and_then(|b| b.as_bool()).unwrap_or(false);
             for &c in &clients {
                 w.server(c, default_secret);
+            }
+            if open_in_race {
+                w.store.remove_raw("salt");
             }
             let log0 = w.store.log().len();
             arm_faults(&w.store, race);
@@ -258,11 +263,24 @@ fn run_try(w: &mut World, scn: &Value, labels: &Labels, default_secret: &[u8]) -
                 let mut srv = w.servers[c].take().unwrap();
                 let calls: Vec<Value> = progs[&c.to_string()].as_array().cloned().unwrap_or_default();
                 let labels = labels.clone();
+                let store = w.store.clone();
+                let secret = default_secret.to_vec();
                 futs.insert(
                     c,
                     Some(Box::pin(async move {
                         let mut out = Vec::new();
                         for call in calls.iter() {
+                            if call["op"].as_str() == Some("new") {
+                                match VerifCloudServer::new(&store, c, secret.clone()).await {
+                                    Ok(mut s) => {
+                                        s.set_cleanup_probability(0);
+                                        srv = s;
+                                        out.push(json!({"ok": true}));
+                                    }
+                                    Err(e) => out.push(json!({"err": e.to_string()})),
+                                }
+                                continue;
+                            }
                             out.push(do_call(&mut srv, call, &labels).await);
                         }
                         (srv, out)
